@@ -114,6 +114,12 @@ def call(c, form):
         seq[:] = u
     else:                             # a narrow dtype
         seq = np.array(u, dtype=form)
+    if form in ("list", "array") and all(x >= 0 for x in u) and any(x >= 10 for x in u):
+        # the digit string that these states happen to print as was analysed just before (a different sequence)
+        try:
+            cpl.apen("".join(str(x) for x in u), m=c["m"], r=c["r"] + c["rfrac"] if c.get("rfrac") else c["r"])
+        except Exception:  # noqa
+            pass
     # a filtering level need not be whole: distances of whole numbers are within r + f exactly when they are within r (0 <= f < 1)
     return float(cpl.apen(seq, m=c["m"], r=c["r"] + c["rfrac"] if c.get("rfrac") else c["r"]))
 
